@@ -124,22 +124,74 @@ def main():
 
     # structural facts ---------------------------------------------------------------
     def renamed(rel, subs):
-        s = norm(cut_tests(read(a.repo, rel)))
-        # drop doc attributes / module docs
+        s = cut_tests(read(a.repo, rel))
+        # drop the verification hook lines and doc comments before normalising
+        s = re.sub(r"^\s*#\[cfg\(memchr_verif\)\]\n\s*if crate::verif::forced_unavailable\([^)]*\) \{\n\s*return false;\n\s*\}\n", "", s, flags=re.M)
+        s = re.sub(r"^\s*#\[cfg\(memchr_verif\)\]\n(?:[^\n]*\n)", "", s, flags=re.M)
+        s = norm(s)
+        s = re.sub(r"/\*!.*?\*/", "", s)
         for k, val in subs:
             s = s.replace(k, val)
-        return s
+        # `unsafe { self.x_impl(..) }` vs `self.x_impl(..)` and `unsafe fn` vs `fn` (functions
+        # with / without a #[target_feature]) are the same routing
+        s = re.sub(r"unsafe \{ (self\.\w+\([^)]*\)) \}", r"\1", s)
+        s = s.replace("unsafe fn ", "fn ")
+        s = re.sub(r"#\[target_feature\(enable = \"ISA\"\)\] ", "", s)
+        s = re.sub(r"\s+", " ", s)
+        s = re.sub(r"\(\s+", "(", s)
+        s = re.sub(r",?\s*\)", ")", s)
+        return s.strip()
+    # The model uses ONE definition for the three single-vector wrappers (memchr and packed
+    # pair); check the three source files really are equal modulo type / ISA names.
+    same = {}
     try:
-        s_sse2 = renamed("src/arch/x86_64/sse2/memchr.rs", [("__m128i", "VEC"), ("sse2", "ISA"), ("SSE2", "ISA")])
-        s_simd = renamed("src/arch/wasm32/simd128/memchr.rs", [("v128", "VEC"), ("simd128", "ISA")])
-        s_neon = renamed("src/arch/aarch64/neon/memchr.rs", [("uint8x16_t", "VEC"), ("neon", "ISA")])
-        def body(s):
-            # keep only the impl blocks' find_raw/rfind_raw/count_raw routing, which is what the
-            # model's single-vector wrapper mirrors
-            return re.findall(r"pub unsafe fn (?:find|rfind|count)_raw\(.*?\n?\) -> [^{]+\{.*?(?=pub unsafe fn|#\[target_feature|unsafe fn|pub fn iter)", s, re.S)
-        x.facts["wrappers_same_routing"] = None
+        for kind in ("memchr", "packedpair"):
+            variants = {
+                "sse2": renamed("src/arch/x86_64/sse2/%s.rs" % kind, [("__m128i", "VEC"), ("x86_64", "ARCH"), ("sse2", "ISA"), ("SSE2", "ISA")]),
+                "neon": renamed("src/arch/aarch64/neon/%s.rs" % kind, [("uint8x16_t", "VEC"), ("aarch64", "ARCH"), ("neon", "ISA"), ("NEON", "ISA")]),
+                "simd128": renamed("src/arch/wasm32/simd128/%s.rs" % kind, [("v128", "VEC"), ("wasm32", "ARCH"), ("simd128", "ISA"), ("SIMD128", "ISA")]),
+            }
+            # compare only the routing bodies: everything from the first `impl` on, with the
+            # `is_available` bodies removed (they legitimately differ per ISA)
+            def core(t):
+                i = t.find("impl ")
+                t = t[i:] if i >= 0 else t
+                # remove every `is_available` body by brace matching
+                out, pos = [], 0
+                key = "pub fn is_available() -> bool {"
+                while True:
+                    j = t.find(key, pos)
+                    if j < 0:
+                        out.append(t[pos:])
+                        break
+                    out.append(t[pos:j] + key + "..}")
+                    k = j + len(key)
+                    depth = 1
+                    while k < len(t) and depth:
+                        depth += {"{": 1, "}": -1}.get(t[k], 0)
+                        k += 1
+                    pos = k
+                return "".join(out)
+            cores = {k: core(v) for k, v in variants.items()}
+            ref = cores["sse2"]
+            same[kind] = {k: (v == ref) for k, v in cores.items()}
+            for k, v in cores.items():
+                if v != ref:
+                    # report the first differing position for diagnosis
+                    j = next((i for i in range(min(len(v), len(ref))) if v[i] != ref[i]), min(len(v), len(ref)))
+                    x.broken.append("wrapper %s/%s differs from sse2 at %d: ...%s... vs ...%s..." % (k, kind, j, v[max(0, j - 40):j + 40], ref[max(0, j - 40):j + 40]))
+        x.facts["wrappers_same_routing"] = same
     except OSError as e:
-        x.facts["wrappers_same_routing"] = f"unreadable: {e}"
+        x.facts["wrappers_same_routing"] = "unreadable: %s" % e
+    # the seven x86_64 dispatchers all instantiate the one ifunc macro
+    try:
+        d = strip_comments(read(a.repo, "src/arch/x86_64/memchr.rs"))
+        x.facts["ifunc_instances"] = len(re.findall(r"unsafe_ifunc!\(", d))
+        x.facts["ifunc_macro_defs"] = len(re.findall(r"macro_rules! unsafe_ifunc", d))
+        if x.facts["ifunc_instances"] != 7 or x.facts["ifunc_macro_defs"] != 1:
+            x.broken.append("x86_64/memchr.rs: expected 7 instances of one unsafe_ifunc! macro, found %d/%d" % (x.facts["ifunc_instances"], x.facts["ifunc_macro_defs"]))
+    except OSError as e:
+        x.broken.append("x86_64/memchr.rs unreadable: %s" % e)
 
     def scan(paths, pats):
         hits = []
